@@ -22,6 +22,7 @@ type CallModel struct {
 	Value  []byte `json:"value,omitempty"`
 	Ret    uint64 `json:"ret,omitempty"`
 	Aux    uint64 `json:"aux,omitempty"`
+	Ghost  bool   `json:"ghost,omitempty"` // call of the hypothetical second execution (call2 specifications), not of the program run
 }
 
 // Model is a counterexample: an input frame, context fields, helper results
@@ -157,6 +158,9 @@ func (o *Obligation) extractModel(solver *smt.Solver) *Model {
 				}
 			}
 		}
+		for _, pr := range o.probes {
+			add(pr.T)
+		}
 		for _, b := range res.probes.blocks {
 			add(b.pc)
 		}
@@ -265,7 +269,7 @@ func (o *Obligation) extractModel(solver *smt.Solver) *Model {
 			if v, ok := val(c.pc); !((ok && v == "true") || c.pc.IsTrue()) {
 				continue
 			}
-			cm := CallModel{Helper: c.kind, Site: c.desc, Map: c.mapName}
+			cm := CallModel{Helper: c.kind, Site: c.desc, Map: c.mapName, Ghost: c.ghost}
 			if v, ok := val(c.key); ok {
 				if b, ok := parseBV(v); ok {
 					for len(b) < c.keySize {
@@ -294,6 +298,11 @@ func (o *Obligation) extractModel(solver *smt.Solver) *Model {
 				}
 			}
 			m.Calls = append(m.Calls, cm)
+		}
+		for _, pr := range o.probes {
+			if v, ok := val(pr.T); ok {
+				m.Extra[pr.Name] = v
+			}
 		}
 		keys := make([]string, 0, len(o.values))
 		for _, k := range o.values {
